@@ -572,7 +572,8 @@ func checkC11(c c11Case, ctx *vCtx) *vFailure {
 		p := vWriteFile("c11-book.yaml", c.Book.Render())
 		lg := vWriteFile("c11-log.yaml", "2021/01/01:\n  zz: 1\n")
 		x := "x"
-		cmds := [][]string{{"csv", "database-resolved"}, {"reg", "--no-color"}, {"bal"}, {"report", "totals"}, {"report", "element-total", x}, {"report", "unresolved"}, {"summary", "2021/01/01"}}
+		cmds := [][]string{{"csv", "database-resolved"}, {"reg", "--no-color"}, {"bal"}, {"report", "totals"}, {"report", "element-total", x}, {"report", "unresolved"}, {"summary", "2021/01/01"},
+			{"reg", "-f", "."}, {"reg", "-s", x}, {"reg", "-s", x, "-g"}, {"reg", "--use-old-reg-reporter"}, {"reg", "--totals-only"}, {"bal", "-s", x}, {"bal", "-c"}, {"bal", "--collapse-last"}, {"reg", "-b", "2021/01/01"}}
 		// a configuration file with another depth: the flag / environment value must win, also when it equals the default
 		other := c.N + 3
 		if c.N > 6 {
@@ -760,7 +761,7 @@ func init() {
 
 func TestVerifC11Random(t *testing.T) {
 	vRapid(t, "C11", "c11.random",
-		"books built around N in 1..12: chains of length N-3..N+3, chains with side branches and skip links, random DAGs with h_max in N-2..N+2, cycles of length 1..6 entered through a path of length 0..N+1 (alone or beside chains), random declaration order; each resolved 24 (quick) / 64 (thorough) times with fresh random insertion orders, alternating entry points, 1/15 also through 7 CLI commands x3; oracle: fail <=> cyclic or h_max >= N; non-trivial = cyclic or |h_max-N| <= 2",
+		"books built around N in 1..12: chains of length N-3..N+3, chains with side branches and skip links, random DAGs with h_max in N-2..N+2, cycles of length 1..6 entered through a path of length 0..N+1 (alone or beside chains), random declaration order; each resolved 24 (quick) / 64 (thorough) times with fresh random insertion orders, alternating entry points, 1/15 also through 16 CLI command variants x3 with the limit given by flag, HR_MAXDEPTH or configuration file; oracle: fail <=> cyclic or h_max >= N; non-trivial = cyclic or |h_max-N| <= 2",
 		vBudget(6400, 128000), genC11, checkC11)
 }
 
